@@ -622,4 +622,454 @@ theorem prevLoop_eq (t : Int) (l : List Row) : ∀ (prev : Int) (seen : Nat),
           ih prev seen (sortedByTimeB_tail hs) (nonOverlapB_tail hn) hp']
 
 
+theorem sortedByTimeB_drop {l : List Row} (s : Nat) (h : sortedByTimeB l = true) : sortedByTimeB (l.drop s) = true := by
+  induction s generalizing l with
+  | zero => simpa using h
+  | succ s ih =>
+    cases l with
+    | nil => rfl
+    | cons a l => simpa using ih (sortedByTimeB_tail h)
+
+theorem nonOverlapB_drop {l : List Row} (s : Nat) (h : nonOverlapB l = true) : nonOverlapB (l.drop s) = true := by
+  induction s generalizing l with
+  | zero => simpa using h
+  | succ s ih =>
+    cases l with
+    | nil => rfl
+    | cons a l => simpa using ih (nonOverlapB_tail h)
+
+theorem positiveRowsB_drop {l : List Row} (s : Nat) (h : positiveRowsB l = true) : positiveRowsB (l.drop s) = true :=
+  positiveRowsB_iff.2 fun r hr => positiveRowsB_iff.1 h r (List.mem_of_mem_drop hr)
+
+/-- for rows with sorted ends, the rows that ended by `t` form a prefix … -/
+theorem filter_ended_eq_take (t : Int) {l : List Row} (h : l.Pairwise (fun a b => a.endt ≤ b.endt)) :
+    l.filter (fun iv => decide (iv.endt ≤ t)) = l.take (l.filter fun iv => decide (iv.endt ≤ t)).length := by
+  induction l with
+  | nil => rfl
+  | cons a l ih =>
+    have ⟨ha, hl⟩ := List.pairwise_cons.1 h
+    by_cases hp : a.endt ≤ t
+    · simp only [List.filter_cons, hp, decide_true, ite_true, List.length_cons, List.take_succ_cons]
+      rw [← ih hl]
+    · have : l.filter (fun iv => decide (iv.endt ≤ t)) = [] := by
+        rw [List.filter_eq_nil_iff]
+        intro b hb; have := ha b hb; simp; omega
+      simp [hp, this]
+
+/-- … so filtering a suffix is dropping from the filtered list -/
+theorem filter_ended_drop (t : Int) {l : List Row} (h : l.Pairwise (fun a b => a.endt ≤ b.endt)) (s : Nat) :
+    (l.drop s).filter (fun iv => decide (iv.endt ≤ t)) = (l.filter fun iv => decide (iv.endt ≤ t)).drop s := by
+  induction l generalizing s with
+  | nil => simp
+  | cons a l ih =>
+    cases s with
+    | zero => rfl
+    | succ s =>
+      have ⟨ha, hl⟩ := List.pairwise_cons.1 h
+      by_cases hp : a.endt ≤ t
+      · simp only [List.drop_succ_cons, List.filter_cons, hp, decide_true, ite_true, ih hl s]
+      · have hnil : l.filter (fun iv => decide (iv.endt ≤ t)) = [] := by
+          rw [List.filter_eq_nil_iff]
+          intro b hb; have := ha b hb; simp; omega
+        simp only [List.drop_succ_cons, List.filter_cons, hp, decide_false, Bool.false_eq_true, ite_false,
+          ih hl s, hnil, List.drop_nil]
+
+theorem le_getLast_of_pairwise {l : List Row} {iv : Row} (h : l.Pairwise (fun a b => a.endt ≤ b.endt))
+    (hl : l.getLast? = some iv) : ∀ b ∈ l, b.endt ≤ iv.endt := by
+  obtain ⟨ys, rfl⟩ := List.getLast?_eq_some_iff.1 hl
+  intro b hb
+  rw [List.mem_append] at hb
+  rcases hb with hb | hb
+  · exact (List.pairwise_append.1 h).2.2 b hb iv (List.mem_singleton.2 rfl)
+  · rw [List.mem_singleton.1 hb]; exact Int.le_refl _
+
+/-- with sorted ends, the nearest earlier end is the end of the last interval that ended by `t` -/
+theorem distPrev_eq_getLast (t : Int) {ivs : List Row} (h : ivs.Pairwise (fun a b => a.endt ≤ b.endt)) :
+    distPrev t ivs = lastDist t (-1) (ivs.filter fun iv => decide (iv.endt ≤ t)).getLast? := by
+  unfold distPrev
+  cases hl : (ivs.filter fun iv => decide (iv.endt ≤ t)).getLast? with
+  | none =>
+    rw [List.getLast?_eq_none_iff] at hl
+    simp [hl, lastDist]
+  | some iv =>
+    have hmem := List.mem_of_getLast? hl
+    have hmax := le_getLast_of_pairwise (h.sublist List.filter_sublist) hl
+    have : ((ivs.filter fun iv => decide (iv.endt ≤ t)).map fun iv => t - iv.endt).min? = some (t - iv.endt) := by
+      rw [List.min?_eq_some_iff]
+      refine ⟨List.mem_map.2 ⟨iv, hmem, rfl⟩, ?_⟩
+      intro b hb
+      obtain ⟨x, hx, rfl⟩ := List.mem_map.1 hb
+      have := hmax x hx
+      omega
+    simp [this, lastDist]
+
+theorem length_filter_ended_mono {t t' : Int} (h : t ≤ t') (l : List Row) :
+    (l.filter fun iv => decide (iv.endt ≤ t)).length ≤ (l.filter fun iv => decide (iv.endt ≤ t')).length := by
+  rw [← List.countP_eq_length_filter, ← List.countP_eq_length_filter]
+  apply List.countP_mono_left
+  intro x _ hx
+  simp only [decide_eq_true_eq] at hx ⊢
+  omega
+
+/-- the outer loop: `seen` trails the number of intervals that ended by the current thing's start by at most one, which
+is exactly what `max(0, seen - 1)` maintains for things sorted by time -/
+theorem prevNextLoop_eq (ivs : List Row) (hs : sortedByTimeB ivs = true) (hn : nonOverlapB ivs = true)
+    (hp : positiveRowsB ivs = true) (ths : List Row) : ∀ (s : Nat),
+    sortedByTimeB ths = true → nonNegB ths = true →
+    (∀ th ∈ ths, s ≤ (ivs.filter fun iv => decide (iv.endt ≤ th.time)).length - 1) →
+    prevNextLoop ivs ths s = prevNextSpec ths ivs := by
+  have hnn : nonNegB ivs = true := nonNegB_iff.2 fun r hr => Int.le_of_lt (positiveRowsB_iff.1 hp r hr)
+  have hends := ends_pairwise hs hn hnn
+  induction ths with
+  | nil => intros; rfl
+  | cons th ths ih =>
+    intro s hst hnt hinv
+    have hs0 := hinv th (List.mem_cons_self ..)
+    have hprev := prevLoop_eq th.time (ivs.drop s) (-1) s (sortedByTimeB_drop s hs) (nonOverlapB_drop s hn)
+      (positiveRowsB_drop s hp)
+    rw [filter_ended_drop th.time hends s] at hprev
+    generalize hL : (ivs.filter fun iv => decide (iv.endt ≤ th.time)) = L at hprev hs0
+    have hlen : s + (L.drop s).length = L.length := by simp; omega
+    have hlast : lastDist th.time (-1) (L.drop s).getLast? = distPrev th.time ivs := by
+      rw [distPrev_eq_getLast th.time hends, hL, List.getLast?_drop]
+      by_cases hle : L.length ≤ s
+      · have : L = [] := by
+          cases L with
+          | nil => rfl
+          | cons a L => simp at hle hs0; omega
+        simp [this]
+      · simp [hle]
+    rw [hlen, hlast] at hprev
+    have hnext : nextLoop th.endt (ivs.drop L.length) = distNext th.endt ivs := by
+      rw [nextLoop_eq _ _ (sortedByTimeB_drop _ hs)]
+      apply distNext_drop
+      intro iv hiv
+      have htk := filter_ended_eq_take th.time hends
+      rw [hL] at htk
+      rw [← htk, ← hL] at hiv
+      have h1 := (List.mem_filter.1 hiv)
+      have h2 := positiveRowsB_iff.1 hp iv h1.1
+      have h3 := nonNegB_iff.1 hnt th (List.mem_cons_self ..)
+      have h4 : iv.endt ≤ th.time := by simpa using h1.2
+      omega
+    have hrec := ih (L.length - 1) (sortedByTimeB_tail hst)
+      (nonNegB_iff.2 fun r hr => nonNegB_iff.1 hnt r (List.mem_cons_of_mem _ hr))
+      (by
+        intro th' hth'
+        have hle := sortedByTimeB_head_le hst th' hth'
+        have := length_filter_ended_mono hle ivs
+        rw [hL] at this
+        omega)
+    simp only [prevNextLoop, hprev, hnext, hrec, prevNextSpec, List.map_cons]
+
+theorem absTimeToPrevNext_eq_spec {things intervals : List Row} (ht : sortedByTimeB things = true)
+    (hnt : nonNegB things = true) (hs : sortedByTimeB intervals = true) (hn : nonOverlapB intervals = true)
+    (hp : positiveRowsB intervals = true) :
+    absTimeToPrevNext things intervals = .ok (prevNextSpec things intervals) := by
+  unfold absTimeToPrevNext
+  simp only [ht, hs, Bool.not_true, Bool.false_eq_true, ite_false]
+  by_cases hemp : (things.isEmpty || intervals.isEmpty) = true
+  · simp only [hemp, ite_true]
+    simp only [Bool.or_eq_true, List.isEmpty_iff] at hemp
+    rcases hemp with h | h <;> subst h <;> simp [prevNextSpec, distPrev, distNext, pure, Except.pure]
+  · simp only [hemp, Bool.false_eq_true, ite_false]
+    rw [prevNextLoop_eq intervals hs hn hp things 0 ht hnt (by intros; omega)]
+    rfl
+
+theorem absTimeToPrevNext_error {things intervals : List Row}
+    (h : sortedByTimeB things = false ∨ sortedByTimeB intervals = false) :
+    absTimeToPrevNext things intervals = .error Err.valueError := by
+  unfold absTimeToPrevNext
+  rcases h with h | h <;> simp [h] <;> (repeat' split) <;> first | rfl | simp_all
+
+
+/-! ### `sort_by_time` -/
+
+theorem minList_le (d : Int) (l : List Int) : minList d l ≤ d ∧ ∀ y ∈ l, minList d l ≤ y := by
+  induction l generalizing d with
+  | nil => exact ⟨Int.le_refl _, fun y hy => by cases hy⟩
+  | cons a l ih =>
+    have ⟨h1, h2⟩ := ih (min d a)
+    simp only [minList, List.foldl_cons] at h1 h2 ⊢
+    refine ⟨by omega, ?_⟩
+    intro y hy
+    cases hy with
+    | head => omega
+    | tail _ h => exact h2 y h
+
+theorem le_maxList (d : Int) (l : List Int) : d ≤ maxList d l ∧ ∀ y ∈ l, y ≤ maxList d l := by
+  induction l generalizing d with
+  | nil => exact ⟨Int.le_refl _, fun y hy => by cases hy⟩
+  | cons a l ih =>
+    have ⟨h1, h2⟩ := ih (max d a)
+    simp only [maxList, List.foldl_cons] at h1 h2 ⊢
+    refine ⟨by omega, ?_⟩
+    intro y hy
+    cases hy with
+    | head => omega
+    | tail _ h => exact h2 y h
+
+/-- what `sort_by_time` subtracts from every channel: the smallest channel when that is negative, else nothing -/
+def chanShift (x : List CRow) : Int :=
+  match x.map (·.channel) with
+  | [] => 0
+  | c :: cs => if minList c cs < 0 then minList c cs else 0
+
+/-- the per-row entry of the `channel` array -/
+def chanOf (hasChannel : Bool) (x : List CRow) (r : CRow) : Int :=
+  if hasChannel then r.channel - chanShift x else 1
+
+def tminOf (x : List CRow) : Int :=
+  match x with
+  | [] => 0
+  | r :: rs => minList r.time (rs.map (·.time))
+
+def m1Of (hasChannel : Bool) (x : List CRow) : Int :=
+  match x.map (chanOf hasChannel x) with
+  | [] => 1
+  | c :: cs => maxList c cs + 1
+
+/-- the composite sort key of one row -/
+def keyOf (hasChannel : Bool) (x : List CRow) (r : CRow) : Int :=
+  (r.time - tminOf x) * m1Of hasChannel x + chanOf hasChannel x r
+
+theorem sortChannels_eq (h : Bool) (x : List CRow) : sortChannels h x = x.map (chanOf h x) := by
+  cases h with
+  | false => simp [sortChannels, chanOf]
+  | true =>
+    cases x with
+    | nil => rfl
+    | cons r rs =>
+      by_cases hm : minList r.channel (rs.map (·.channel)) < 0
+      · simp [sortChannels, chanOf, chanShift, hm, Function.comp_def]
+      · simp [sortChannels, chanOf, chanShift, hm]
+
+theorem zip_map_self {α β} (l : List α) (f : α → β) : l.zip (l.map f) = l.map fun a => (a, f a) := by
+  induction l with
+  | nil => rfl
+  | cons a l ih => simp [ih]
+
+theorem sortKeys_eq (h : Bool) (x : List CRow) : sortKeys h x = x.map (keyOf h x) := by
+  cases x with
+  | nil => simp [sortKeys]
+  | cons r rs =>
+    have hc := sortChannels_eq h (r :: rs)
+    simp only [List.map_cons] at hc
+    unfold sortKeys
+    rw [hc]
+    simp only []
+    have hz := zip_map_self (r :: rs) (chanOf h (r :: rs))
+    simp only [List.map_cons] at hz
+    rw [hz]
+    simp [keyOf, tminOf, m1Of]
+
+theorem chanOf_bounds (h : Bool) (x : List CRow) (r : CRow) (hr : r ∈ x) :
+    0 ≤ chanOf h x r ∧ chanOf h x r + 1 ≤ m1Of h x := by
+  constructor
+  · cases h with
+    | false => simp [chanOf]
+    | true =>
+      cases x with
+      | nil => cases hr
+      | cons r0 rs =>
+        have hm := minList_le r0.channel (rs.map (·.channel))
+        have hle : minList r0.channel (rs.map (·.channel)) ≤ r.channel := by
+          cases hr with
+          | head => exact hm.1
+          | tail _ h => exact hm.2 _ (List.mem_map.2 ⟨r, h, rfl⟩)
+        simp only [chanOf, chanShift, List.map_cons, ite_true]
+        split <;> omega
+  · cases x with
+    | nil => cases hr
+    | cons r0 rs =>
+      have hM := le_maxList (chanOf h (r0 :: rs) r0) (rs.map (chanOf h (r0 :: rs)))
+      simp only [m1Of, List.map_cons]
+      cases hr with
+      | head => omega
+      | tail _ hmem => have := hM.2 _ (List.mem_map.2 ⟨r, hmem, rfl⟩); omega
+
+/-- the composite key orders rows like the pair (time, shifted channel) -/
+theorem key_le_iff (m M t1 t2 c1 c2 : Int) (h1 : 0 ≤ c1) (h1' : c1 + 1 ≤ M) (h2 : 0 ≤ c2) (h2' : c2 + 1 ≤ M) :
+    (t1 - m) * M + c1 ≤ (t2 - m) * M + c2 ↔ t1 < t2 ∨ (t1 = t2 ∧ c1 ≤ c2) := by
+  have e : (t2 - m) * M = (t1 - m) * M + (t2 - t1) * M := by
+    rw [← Int.add_mul]; congr 1; omega
+  rcases Int.lt_trichotomy t1 t2 with hlt | heq | hgt
+  · have : 1 * M ≤ (t2 - t1) * M := Int.mul_le_mul_of_nonneg_right (by omega) (by omega)
+    constructor
+    · intro _; exact Or.inl hlt
+    · intro _; omega
+  · subst heq
+    constructor
+    · intro h; exact Or.inr ⟨rfl, by omega⟩
+    · intro h; rcases h with h | h <;> omega
+  · have e' : (t1 - m) * M = (t2 - m) * M + (t1 - t2) * M := by
+      rw [← Int.add_mul]; congr 1; omega
+    have : 1 * M ≤ (t1 - t2) * M := Int.mul_le_mul_of_nonneg_right (by omega) (by omega)
+    constructor
+    · intro _; omega
+    · intro h; rcases h with h | h <;> omega
+
+/-- lexicographic order on (time, channel); without a channel field, on time alone -/
+def lexLeB (hasChannel : Bool) (a b : CRow) : Bool :=
+  decide (a.time < b.time ∨ (a.time = b.time ∧ (hasChannel = false ∨ a.channel ≤ b.channel)))
+
+theorem keyOf_le_iff (h : Bool) (x : List CRow) (a b : CRow) (ha : a ∈ x) (hb : b ∈ x) :
+    decide (keyOf h x a ≤ keyOf h x b) = lexLeB h a b := by
+  have ⟨a1, a2⟩ := chanOf_bounds h x a ha
+  have ⟨b1, b2⟩ := chanOf_bounds h x b hb
+  have := key_le_iff (tminOf x) (m1Of h x) a.time b.time (chanOf h x a) (chanOf h x b) a1 a2 b1 b2
+  unfold lexLeB
+  rw [decide_eq_decide]
+  unfold keyOf
+  rw [this]
+  cases h with
+  | false => simp [chanOf]
+  | true =>
+    simp only [chanOf, ite_true, Bool.true_eq_false, false_or]
+    omega
+
+theorem mergeSort_congr {α} {r s : α → α → Bool} {l : List α} (h : ∀ a ∈ l, ∀ b ∈ l, r a b = s a b) :
+    l.mergeSort r = l.mergeSort s := by
+  have := List.map_mergeSort (f := id) (r := r) (s := s) (l := l) (by simpa using h)
+  simpa using this
+
+/-- the composite-key argsort of `sort_by_time` is the stable merge sort by the lexicographic order -/
+theorem sortByTime_eq_mergeSort (h : Bool) (x : List CRow) :
+    sortByTime h x = x.mergeSort (lexLeB h) := by
+  unfold sortByTime
+  rw [sortKeys_eq]
+  have hz : (x.map (keyOf h x)).zip x = x.map fun r => (keyOf h x r, r) := by
+    generalize keyOf h x = f
+    induction x with
+    | nil => rfl
+    | cons a l ih => simp [ih]
+  rw [hz]
+  have hm := List.map_mergeSort (f := fun (p : Int × CRow) => p.2)
+    (r := fun p q => decide (p.1 ≤ q.1)) (s := fun a b => decide (keyOf h x a ≤ keyOf h x b))
+    (l := x.map fun r => (keyOf h x r, r))
+    (by
+      intro p hp q hq
+      obtain ⟨a, _, rfl⟩ := List.mem_map.1 hp
+      obtain ⟨b, _, rfl⟩ := List.mem_map.1 hq
+      rfl)
+  rw [hm, List.map_map]
+  have : ((fun (p : Int × CRow) => p.2) ∘ fun r => (keyOf h x r, r)) = id := rfl
+  rw [this, List.map_id]
+  exact mergeSort_congr fun a ha b hb => keyOf_le_iff h x a b ha hb
+
+theorem lexLeB_trans (h : Bool) (a b c : CRow) : lexLeB h a b = true → lexLeB h b c = true → lexLeB h a c = true := by
+  simp only [lexLeB, decide_eq_true_eq]
+  cases h <;> simp <;> omega
+
+theorem lexLeB_total (h : Bool) (a b : CRow) : (lexLeB h a b || lexLeB h b a) = true := by
+  simp only [lexLeB, Bool.or_eq_true, decide_eq_true_eq]
+  cases h <;> simp <;> omega
+
+
+/-! ### `split_by_containment`: the list surgery (`np.diff`/`_split`/`np.unique`/`_get_empty_container_ids`/`insert`) -/
+
+/-- maximal runs of equal container index (index, things of the run), built from the back -/
+def runsOf : List (Row × Int) → List (Int × List Row)
+  | [] => []
+  | (a, w) :: ps =>
+    match runsOf ps with
+    | [] => [(w, [a])]
+    | (v, g) :: rs => if v = w then (v, a :: g) :: rs else (w, [a]) :: (v, g) :: rs
+
+/-- the run with index `j`, empty when there is none -/
+def groupOf (j : Int) : List (Int × List Row) → List Row
+  | [] => []
+  | (v, g) :: rs => if v = j then g else groupOf j rs
+
+theorem runsOf_cons (a : Row) (w : Int) (ps : List (Row × Int)) :
+    runsOf ((a, w) :: ps) =
+      match runsOf ps with
+      | [] => [(w, [a])]
+      | (v, g) :: rs => if v = w then (v, a :: g) :: rs else (w, [a]) :: (v, g) :: rs := rfl
+
+theorem runsOf_head (a : Row) (w : Int) (ps : List (Row × Int)) :
+    ∃ g rs, runsOf ((a, w) :: ps) = (w, g) :: rs := by
+  simp only [runsOf]
+  split
+  · exact ⟨_, _, rfl⟩
+  · split
+    · rename_i h; subst h; exact ⟨_, _, rfl⟩
+    · exact ⟨_, _, rfl⟩
+
+theorem splitIndicesAux_succ (ws : List Int) (i : Nat) :
+    splitIndicesAux ws (i + 1) = (splitIndicesAux ws i).map (· + 1) := by
+  induction ws generalizing i with
+  | nil => rfl
+  | cons a ws ih =>
+    cases ws with
+    | nil => rfl
+    | cons b rest =>
+      simp only [splitIndicesAux]
+      split <;> simp [ih (i + 1)]
+
+theorem splitLoop_cons_succ (a : α) (ts : List α) (sis : List Nat) : ∀ (prev : Nat),
+    splitLoop (a :: ts) (prev + 1) (sis.map (· + 1)) = splitLoop ts prev sis := by
+  induction sis with
+  | nil => intro prev; simp [splitLoop]
+  | cons si rest ih => intro prev; simp [splitLoop, ih si]
+
+theorem splitLoop_cons_zero (a : α) (ts : List α) (hts : ts ≠ []) (sis : List Nat) :
+    splitLoop (a :: ts) 0 (sis.map (· + 1)) =
+      match splitLoop ts 0 sis with
+      | g :: gs => (a :: g) :: gs
+      | [] => [[a]] := by
+  cases sis with
+  | nil =>
+    have : 0 < ts.length := List.length_pos_iff.2 hts
+    simp [splitLoop, this]
+  | cons si rest => simp [splitLoop, splitLoop_cons_succ]
+
+/-- `_split` at the positions where the container index changes gives the runs -/
+theorem splitLoop_eq_runs : ∀ (ps : List (Row × Int)), ps ≠ [] →
+    splitLoop (ps.map (·.1)) 0 (splitIndices (ps.map (·.2))) = (runsOf ps).map (·.2) := by
+  intro ps
+  induction ps with
+  | nil => intro h; exact absurd rfl h
+  | cons p ps ih =>
+    intro _
+    obtain ⟨a, w⟩ := p
+    cases ps with
+    | nil => simp [splitIndices, splitIndicesAux, splitLoop, runsOf]
+    | cons p' rest =>
+      obtain ⟨a', w'⟩ := p'
+      have ih' := ih (by simp)
+      obtain ⟨g, rs, hr⟩ := runsOf_head a' w' rest
+      have hidx : splitIndicesAux (w' :: rest.map (·.2)) 1 = (splitIndices (w' :: rest.map (·.2))).map (· + 1) :=
+        splitIndicesAux_succ _ 0
+      simp only [List.map_cons] at ih' ⊢
+      by_cases hw : w' = w
+      · subst hw
+        have h1 : splitIndices (w' :: w' :: rest.map (·.2)) = (splitIndices (w' :: rest.map (·.2))).map (· + 1) := by
+          simp [splitIndices, splitIndicesAux, hidx]
+        rw [h1, splitLoop_cons_zero a _ (by simp), ih', runsOf_cons a w', hr]
+        simp
+      · have hne : w' - w ≠ 0 := by omega
+        have h1 : splitIndices (w :: w' :: rest.map (·.2)) = 1 :: (splitIndices (w' :: rest.map (·.2))).map (· + 1) := by
+          simp [splitIndices, splitIndicesAux, hne, hidx]
+        have h2 := splitLoop_cons_succ a (a' :: rest.map (·.1)) (splitIndices (w' :: rest.map (·.2))) 0
+        rw [h1]
+        simp only [splitLoop, List.take_succ_cons, List.take_zero, List.drop_zero]
+        rw [show (1 : Nat) = 0 + 1 from rfl, h2, ih', runsOf_cons a w, hr]
+        simp [hw]
+
+theorem split_eq_runs (ps : List (Row × Int)) (h : ps ≠ []) :
+    split (ps.map (·.1)) (splitIndices (ps.map (·.2))) = (runsOf ps).map (·.2) := by
+  rw [← splitLoop_eq_runs ps h]
+  unfold split
+  split
+  · rename_i he
+    have : splitIndices (ps.map (·.2)) = [] := by simpa using he
+    have hl : 0 < (ps.map (·.1)).length := by
+      cases ps with
+      | nil => exact absurd rfl h
+      | cons _ _ => simp
+    simp [this, splitLoop, h]
+  · rfl
+
+
 end Strax.IntervalAlgos
